@@ -491,3 +491,283 @@ Proof.
   rewrite N in N'. inversion N'; subst u'.
   apply round_node_size_strict; assumption.
 Qed.
+
+(* ------------------------------------------------------------------------------------------------------------
+   7. edges.  One axis at a time, on scalars: A = sum of the ancestors' unrounded locations, RA = sum of their
+   rounded locations, lx = the node's own location, w its size, b1 / b2 insets from the near / far edge. *)
+Lemma edge_scalar (A RA lx w b1 b2 : XQ) :
+  finite A -> finite RA -> finite lx -> finite w -> finite b1 -> finite b2 ->
+  val RA == val A ->
+  val (fround (add A lx)) == val A + val (fround lx) ->
+  let ax := add A lx in
+  let rx := add RA (fround lx) in
+  let rw := sub (fround (add ax w)) (fround ax) in
+  finite rx /\ val rx == val (fround ax) /\
+  val (add rx rw) == val (fround (add ax w)) /\
+  val (add rx (sub (fround (add ax b1)) (fround ax))) == val (fround (add ax b1)) /\
+  val (sub (add rx rw) (sub (fround (add ax w)) (fround (sub (add ax w) b2)))) == val (fround (sub (add ax w) b2)).
+Proof.
+  intros FA FRA Fl Fw F1 F2 E S ax rx rw. subst ax rx rw.
+  split; [fin|]. revert S. push_val. intros S.
+  repeat split; lra.
+Qed.
+
+Lemma half_comp x y : x == y -> half x -> half y.
+Proof. intros E [z Hz]. exists z. rewrite <- E. exact Hz. Qed.
+
+(* when does rounding the absolute position agree with "integral ancestor offset + rounded own location"? *)
+Lemma shift_from_nohalf (A lx : XQ) :
+  integral A -> finite lx -> ~ on_half (add A lx) -> val (fround (add A lx)) == val A + val (fround lx).
+Proof.
+  intros IA Fl NH. apply integral_val in IA. destruct IA as [FA [z Hz]].
+  rewrite on_half_val in NH by fin. revert NH. push_val. intros NH.
+  rewrite (q_round_comp (val A + val lx) (inject_Z z + val lx)) by (rewrite Hz; reflexivity).
+  rewrite q_round_shift.
+  - rewrite inject_Z_plus, Hz. reflexivity.
+  - intros Hh. apply NH. eapply half_comp; [|exact Hh]. rewrite Hz. reflexivity.
+Qed.
+
+Lemma shift_from_nonneg (A lx : XQ) :
+  integral A -> finite lx -> 0 <= val lx -> 0 <= val (add A lx) -> val (fround (add A lx)) == val A + val (fround lx).
+Proof.
+  intros IA Fl P1 P2. apply integral_val in IA. destruct IA as [FA [z Hz]].
+  revert P2. push_val. intros P2.
+  rewrite (q_round_comp (val A + val lx) (inject_Z z + val lx)) by (rewrite Hz; reflexivity).
+  rewrite q_round_shift_nonneg; [| assumption | rewrite <- Hz; assumption].
+  rewrite inject_Z_plus, Hz. reflexivity.
+Qed.
+
+Section Edges.
+  Variables (t : tree XQ) (p : list nat) (u r : layout XQ).
+  Hypothesis Ht : tree_all fin_layout t.
+  Hypothesis Nu : node_at t p = Some u.
+  Hypothesis Nr : node_at (round_layout t) p = Some r.
+
+  Let A := ancestors t p.
+  Let RA := ancestors (round_layout t) p.
+  Let ax := add (sum_x A) (location_x u).
+  Let ay := add (sum_y A) (location_y u).
+  Let rx := add (sum_x RA) (location_x r).
+  Let ry := add (sum_y RA) (location_y r).
+
+  Lemma edges_x_core :
+    Forall (fun a => integral (location_x a)) A ->
+    val (fround ax) == val (sum_x A) + val (fround (location_x u)) ->
+    finite rx /\ val rx == val (fround ax) /\
+    val (add rx (size_width r)) == val (fround (add ax (size_width u))) /\
+    val (add rx (border_left r)) == val (fround (add ax (border_left u))) /\
+    val (sub (add rx (size_width r)) (border_right r)) == val (fround (sub (add ax (size_width u)) (border_right u))) /\
+    val (add rx (padding_left r)) == val (fround (add ax (padding_left u))) /\
+    val (sub (add rx (size_width r)) (padding_right r)) == val (fround (sub (add ax (size_width u)) (padding_right u))).
+  Proof.
+    intros IA S. subst ax rx RA.
+    destruct (rounded_node t p r Ht Nr) as (u' & N' & Fu & Fx & Fy & Er).
+    rewrite Nu in N'. inversion N'; subst u'. clear N'.
+    rewrite round_layout_eq, ancestors_round_tree, (sum_x_eq (round_anc _ _ _)).
+    destruct (fold_round_anc_x A zero zero zero zero IA fin_zero fin_zero (Qeq_refl _)) as [FR ER].
+    rewrite <- sum_x_eq in ER. fold A in Fx, Fy, Er.
+    unfold fin_layout in Fu. fields Fu.
+    rewrite Er. rn_rewrite.
+    destruct (edge_scalar (sum_x A) (fold_left addx (round_anc zero zero A) zero) (location_x u) (size_width u)
+                (border_left u) (border_right u)) as (G0 & G1 & G2 & G3 & G4); try assumption.
+    destruct (edge_scalar (sum_x A) (fold_left addx (round_anc zero zero A) zero) (location_x u) (size_width u)
+                (padding_left u) (padding_right u)) as (_ & _ & _ & G5 & G6); try assumption.
+    repeat split; assumption.
+  Qed.
+
+  Lemma edges_y_core :
+    Forall (fun a => integral (location_y a)) A ->
+    val (fround ay) == val (sum_y A) + val (fround (location_y u)) ->
+    finite ry /\ val ry == val (fround ay) /\
+    val (add ry (size_height r)) == val (fround (add ay (size_height u))) /\
+    val (add ry (border_top r)) == val (fround (add ay (border_top u))) /\
+    val (sub (add ry (size_height r)) (border_bottom r)) == val (fround (sub (add ay (size_height u)) (border_bottom u))) /\
+    val (add ry (padding_top r)) == val (fround (add ay (padding_top u))) /\
+    val (sub (add ry (size_height r)) (padding_bottom r)) == val (fround (sub (add ay (size_height u)) (padding_bottom u))).
+  Proof.
+    intros IA S. subst ay ry RA.
+    destruct (rounded_node t p r Ht Nr) as (u' & N' & Fu & Fx & Fy & Er).
+    rewrite Nu in N'. inversion N'; subst u'. clear N'.
+    rewrite round_layout_eq, ancestors_round_tree, (sum_y_eq (round_anc _ _ _)).
+    destruct (fold_round_anc_y A zero zero zero zero IA fin_zero fin_zero (Qeq_refl _)) as [FR ER].
+    rewrite <- sum_y_eq in ER. fold A in Fx, Fy, Er.
+    unfold fin_layout in Fu. fields Fu.
+    rewrite Er. rn_rewrite.
+    destruct (edge_scalar (sum_y A) (fold_left addy (round_anc zero zero A) zero) (location_y u) (size_height u)
+                (border_top u) (border_bottom u)) as (G0 & G1 & G2 & G3 & G4); try assumption.
+    destruct (edge_scalar (sum_y A) (fold_left addy (round_anc zero zero A) zero) (location_y u) (size_height u)
+                (padding_top u) (padding_bottom u)) as (_ & _ & _ & G5 & G6); try assumption.
+    repeat split; assumption.
+  Qed.
+
+  Lemma node_fin : fin_layout u /\ finite (sum_x A) /\ finite (sum_y A).
+  Proof.
+    destruct (rounded_node t p r Ht Nr) as (u' & N' & Fu & Fx & Fy & Er).
+    rewrite Nu in N'. inversion N'; subst u'. auto.
+  Qed.
+
+  Lemma sum_int_x : Forall (fun a => integral (location_x a)) A -> integral (sum_x A).
+  Proof. intros IA. rewrite sum_x_eq. apply fold_int_x; [apply int_zero | assumption]. Qed.
+  Lemma sum_int_y : Forall (fun a => integral (location_y a)) A -> integral (sum_y A).
+  Proof. intros IA. rewrite sum_y_eq. apply fold_int_y; [apply int_zero | assumption]. Qed.
+End Edges.
+
+Lemma rounded_fin (t : tree XQ) p r :
+  tree_all fin_layout t -> node_at (round_layout t) p = Some r -> fin_layout r.
+Proof.
+  intros Ht E. destruct (rounded_node t p r Ht E) as (u & _ & Fu & Fx & Fy & ->).
+  apply round_node_finite; assumption.
+Qed.
+
+Ltac edge_ctx Ht Nu Nr :=
+  let Fu := fresh "Fu" in let Fr := fresh "Fr" in let Fx := fresh "Fx" in let Fy := fresh "Fy" in
+  destruct (node_fin _ _ _ _ Ht Nu Nr) as (Fu & Fx & Fy);
+  pose proof (rounded_fin _ _ _ Ht Nr) as Fr;
+  unfold fin_layout in Fu, Fr; fields Fu; fields Fr.
+
+(* C13_edges *)
+Theorem edges_thm (t : tree XQ) p u r :
+  tree_all fin_layout t -> node_at t p = Some u -> node_at (round_layout t) p = Some r ->
+  let A := ancestors t p in
+  let RA := ancestors (round_layout t) p in
+  let ax := add (sum_x A) (location_x u) in
+  let ay := add (sum_y A) (location_y u) in
+  let rx := add (sum_x RA) (location_x r) in
+  let ry := add (sum_y RA) (location_y r) in
+  (Forall (fun a => integral (location_x a)) A -> ~ on_half ax ->
+     xeq rx (fround ax) /\ xeq (add rx (size_width r)) (fround (add ax (size_width u)))) /\
+  (Forall (fun a => integral (location_y a)) A -> ~ on_half ay ->
+     xeq ry (fround ay) /\ xeq (add ry (size_height r)) (fround (add ay (size_height u)))).
+Proof.
+  intros Ht Nu Nr A RA ax ay rx ry. subst A RA ax ay rx ry. edge_ctx Ht Nu Nr. split; intros IA NH.
+  - destruct (edges_x_core t p u r Ht Nu Nr IA) as (F & E1 & E2 & _).
+    { apply shift_from_nohalf; [eapply sum_int_x; eassumption | assumption | exact NH]. }
+    split; (apply xeq_val; [fin | fin | assumption]).
+  - destruct (edges_y_core t p u r Ht Nu Nr IA) as (F & E1 & E2 & _).
+    { apply shift_from_nohalf; [eapply sum_int_y; eassumption | assumption | exact NH]. }
+    split; (apply xeq_val; [fin | fin | assumption]).
+Qed.
+
+(* the same without the half-pixel premise when neither the offset nor the absolute position is negative *)
+Theorem edges_nonneg_thm (t : tree XQ) p u r :
+  tree_all fin_layout t -> node_at t p = Some u -> node_at (round_layout t) p = Some r ->
+  let A := ancestors t p in
+  let RA := ancestors (round_layout t) p in
+  let ax := add (sum_x A) (location_x u) in
+  let ay := add (sum_y A) (location_y u) in
+  let rx := add (sum_x RA) (location_x r) in
+  let ry := add (sum_y RA) (location_y r) in
+  (Forall (fun a => integral (location_x a)) A -> 0 <= val (location_x u) -> 0 <= val ax ->
+     xeq rx (fround ax) /\ xeq (add rx (size_width r)) (fround (add ax (size_width u)))) /\
+  (Forall (fun a => integral (location_y a)) A -> 0 <= val (location_y u) -> 0 <= val ay ->
+     xeq ry (fround ay) /\ xeq (add ry (size_height r)) (fround (add ay (size_height u)))).
+Proof.
+  intros Ht Nu Nr A RA ax ay rx ry. subst A RA ax ay rx ry. edge_ctx Ht Nu Nr. split; intros IA P1 P2.
+  - destruct (edges_x_core t p u r Ht Nu Nr IA) as (F & E1 & E2 & _).
+    { apply shift_from_nonneg; [eapply sum_int_x; eassumption | assumption | exact P1 | exact P2]. }
+    split; (apply xeq_val; [fin | fin | assumption]).
+  - destruct (edges_y_core t p u r Ht Nu Nr IA) as (F & E1 & E2 & _).
+    { apply shift_from_nonneg; [eapply sum_int_y; eassumption | assumption | exact P1 | exact P2]. }
+    split; (apply xeq_val; [fin | fin | assumption]).
+Qed.
+
+(* C13_inner_edges: the border and padding insets are rounded as absolute edges too (measured from the outer edges) *)
+Theorem inner_edges_thm (t : tree XQ) p u r :
+  tree_all fin_layout t -> node_at t p = Some u -> node_at (round_layout t) p = Some r ->
+  let A := ancestors t p in
+  let RA := ancestors (round_layout t) p in
+  let ax := add (sum_x A) (location_x u) in
+  let ay := add (sum_y A) (location_y u) in
+  let rx := add (sum_x RA) (location_x r) in
+  let ry := add (sum_y RA) (location_y r) in
+  (Forall (fun a => integral (location_x a)) A -> ~ on_half ax ->
+     xeq (add rx (border_left r)) (fround (add ax (border_left u))) /\
+     xeq (sub (add rx (size_width r)) (border_right r)) (fround (sub (add ax (size_width u)) (border_right u))) /\
+     xeq (add rx (padding_left r)) (fround (add ax (padding_left u))) /\
+     xeq (sub (add rx (size_width r)) (padding_right r)) (fround (sub (add ax (size_width u)) (padding_right u)))) /\
+  (Forall (fun a => integral (location_y a)) A -> ~ on_half ay ->
+     xeq (add ry (border_top r)) (fround (add ay (border_top u))) /\
+     xeq (sub (add ry (size_height r)) (border_bottom r)) (fround (sub (add ay (size_height u)) (border_bottom u))) /\
+     xeq (add ry (padding_top r)) (fround (add ay (padding_top u))) /\
+     xeq (sub (add ry (size_height r)) (padding_bottom r)) (fround (sub (add ay (size_height u)) (padding_bottom u)))).
+Proof.
+  intros Ht Nu Nr A RA ax ay rx ry. subst A RA ax ay rx ry. edge_ctx Ht Nu Nr. split; intros IA NH.
+  - destruct (edges_x_core t p u r Ht Nu Nr IA) as (F & _ & _ & E3 & E4 & E5 & E6).
+    { apply shift_from_nohalf; [eapply sum_int_x; eassumption | assumption | exact NH]. }
+    repeat split; (apply xeq_val; [fin | fin | assumption]).
+  - destruct (edges_y_core t p u r Ht Nu Nr IA) as (F & _ & _ & E3 & E4 & E5 & E6).
+    { apply shift_from_nohalf; [eapply sum_int_y; eassumption | assumption | exact NH]. }
+    repeat split; (apply xeq_val; [fin | fin | assumption]).
+Qed.
+
+Lemma xeq_round (a b : XQ) : finite a -> finite b -> xeq a b -> xeq (fround a) (fround b).
+Proof.
+  destruct a, b; simpl; try tauto. intros _ _ E. rewrite (q_round_comp _ _ E). reflexivity.
+Qed.
+Lemma xeq_trans (a b c : XQ) : xeq a b -> xeq b c -> xeq a c.
+Proof. destruct a, b, c; simpl; try tauto. intros E1 E2. rewrite E1. exact E2. Qed.
+Lemma xeq_sym (a b : XQ) : xeq a b -> xeq b a.
+Proof. destruct a, b; simpl; try tauto. intros E. symmetry. exact E. Qed.
+
+(* C13_no_seam: the far edge of box 1 coincides with the near edge of box 2 before rounding => also afterwards *)
+Theorem no_seam_thm (t : tree XQ) p1 u1 r1 p2 u2 r2 :
+  tree_all fin_layout t ->
+  node_at t p1 = Some u1 -> node_at (round_layout t) p1 = Some r1 ->
+  node_at t p2 = Some u2 -> node_at (round_layout t) p2 = Some r2 ->
+  let ax1 := add (sum_x (ancestors t p1)) (location_x u1) in
+  let ay1 := add (sum_y (ancestors t p1)) (location_y u1) in
+  let rx1 := add (sum_x (ancestors (round_layout t) p1)) (location_x r1) in
+  let ry1 := add (sum_y (ancestors (round_layout t) p1)) (location_y r1) in
+  let ax2 := add (sum_x (ancestors t p2)) (location_x u2) in
+  let ay2 := add (sum_y (ancestors t p2)) (location_y u2) in
+  let rx2 := add (sum_x (ancestors (round_layout t) p2)) (location_x r2) in
+  let ry2 := add (sum_y (ancestors (round_layout t) p2)) (location_y r2) in
+  (Forall (fun a => integral (location_x a)) (ancestors t p1) -> Forall (fun a => integral (location_x a)) (ancestors t p2) ->
+   ~ on_half ax1 -> ~ on_half ax2 ->
+   xeq (add ax1 (size_width u1)) ax2 -> xeq (add rx1 (size_width r1)) rx2) /\
+  (Forall (fun a => integral (location_y a)) (ancestors t p1) -> Forall (fun a => integral (location_y a)) (ancestors t p2) ->
+   ~ on_half ay1 -> ~ on_half ay2 ->
+   xeq (add ay1 (size_height u1)) ay2 -> xeq (add ry1 (size_height r1)) ry2).
+Proof.
+  intros Ht Nu1 Nr1 Nu2 Nr2 ax1 ay1 rx1 ry1 ax2 ay2 rx2 ry2.
+  destruct (edges_thm t p1 u1 r1 Ht Nu1 Nr1) as [X1 Y1].
+  destruct (edges_thm t p2 u2 r2 Ht Nu2 Nr2) as [X2 Y2].
+  destruct (node_fin _ _ _ _ Ht Nu1 Nr1) as (Fu1 & Fx1 & Fy1).
+  destruct (node_fin _ _ _ _ Ht Nu2 Nr2) as (Fu2 & Fx2 & Fy2).
+  unfold fin_layout in Fu1, Fu2. fields Fu1. fields Fu2.
+  split; intros Ia Ib Ha Hb E.
+  - destruct (X1 Ia Ha) as [_ R1]. destruct (X2 Ib Hb) as [L2 _].
+    eapply xeq_trans; [exact R1|]. eapply xeq_trans; [|apply xeq_sym; exact L2].
+    apply xeq_round; [subst ax1; fin | subst ax2; fin | exact E].
+  - destruct (Y1 Ia Ha) as [_ R1]. destruct (Y2 Ib Hb) as [L2 _].
+    eapply xeq_trans; [exact R1|]. eapply xeq_trans; [|apply xeq_sym; exact L2].
+    apply xeq_round; [subst ay1; fin | subst ay2; fin | exact E].
+Qed.
+
+(* disjoint boxes stay disjoint: far edge of box 1 <= near edge of box 2 before rounding => also afterwards *)
+Theorem no_overlap_thm (t : tree XQ) p1 u1 r1 p2 u2 r2 :
+  tree_all fin_layout t ->
+  node_at t p1 = Some u1 -> node_at (round_layout t) p1 = Some r1 ->
+  node_at t p2 = Some u2 -> node_at (round_layout t) p2 = Some r2 ->
+  let ax1 := add (sum_x (ancestors t p1)) (location_x u1) in
+  let rx1 := add (sum_x (ancestors (round_layout t) p1)) (location_x r1) in
+  let ax2 := add (sum_x (ancestors t p2)) (location_x u2) in
+  let rx2 := add (sum_x (ancestors (round_layout t) p2)) (location_x r2) in
+  Forall (fun a => integral (location_x a)) (ancestors t p1) -> Forall (fun a => integral (location_x a)) (ancestors t p2) ->
+  ~ on_half ax1 -> ~ on_half ax2 ->
+  val (add ax1 (size_width u1)) <= val ax2 -> val (add rx1 (size_width r1)) <= val rx2.
+Proof.
+  intros Ht Nu1 Nr1 Nu2 Nr2 ax1 rx1 ax2 rx2 I1 I2 H1 H2 L.
+  destruct (edges_x_core t p1 u1 r1 Ht Nu1 Nr1 I1) as (_ & _ & E1 & _).
+  { destruct (node_fin _ _ _ _ Ht Nu1 Nr1) as (Fu & Fx & Fy). unfold fin_layout in Fu. fields Fu.
+    apply shift_from_nohalf; [eapply sum_int_x; eassumption | assumption | exact H1]. }
+  destruct (edges_x_core t p2 u2 r2 Ht Nu2 Nr2 I2) as (_ & E2 & _).
+  { destruct (node_fin _ _ _ _ Ht Nu2 Nr2) as (Fu & Fx & Fy). unfold fin_layout in Fu. fields Fu.
+    apply shift_from_nohalf; [eapply sum_int_x; eassumption | assumption | exact H2]. }
+  destruct (node_fin _ _ _ _ Ht Nu1 Nr1) as (Fu1 & Fx1 & Fy1).
+  destruct (node_fin _ _ _ _ Ht Nu2 Nr2) as (Fu2 & Fx2 & Fy2).
+  unfold fin_layout in Fu1, Fu2. fields Fu1. fields Fu2.
+  fold rx1 in E1. fold ax1 in E1. fold rx2 in E2. fold ax2 in E2.
+  rewrite E1, E2. rewrite !val_round by (subst ax1 ax2; fin).
+  rewrite <- Zle_Qle. apply q_round_mono. exact L.
+Qed.
